@@ -4,16 +4,16 @@ set does not depend on the number of workers; wall caps only truncate (and say s
 CHECKS = {
     # prop: engine, runs per tier, hash seeds per tier, wall cap (s) per tier, determinism re-runs
     "C28": dict(engine="cellsim",
-                quick=dict(runs=4000, hashseeds=[0, 1], wall=150, verify=16),
+                quick=dict(runs=6000, hashseeds=[0, 1], wall=150, verify=16),
                 thorough=dict(runs=150000, hashseeds=[0, 1, 2, 3], wall=1500, verify=64)),
     "C33": dict(engine="mcsim",
-                quick=dict(runs=2000, hashseeds=[0, 1], wall=150, verify=16),
+                quick=dict(runs=3000, hashseeds=[0, 1], wall=150, verify=16),
                 thorough=dict(runs=30000, hashseeds=[0, 1, 2, 3], wall=1500, verify=64)),
     "C34": dict(engine="mcsim",
-                quick=dict(runs=1500, hashseeds=[0, 1], wall=150, verify=16),
+                quick=dict(runs=3000, hashseeds=[0, 1], wall=150, verify=16),
                 thorough=dict(runs=40000, hashseeds=[0, 1, 2, 3], wall=1500, verify=64)),
     "C35": dict(engine="mcsim",
-                quick=dict(runs=1000, hashseeds=[0, 1], wall=150, verify=16, jobs=8),
+                quick=dict(runs=1500, hashseeds=[0, 1], wall=150, verify=16, jobs=8),
                 thorough=dict(runs=50000, hashseeds=[0, 1, 2, 3], wall=1500, verify=64)),
     "C14": dict(engine="calcsim",
                 quick=dict(runs=240, hashseeds=[0, 1], wall=170, verify=8),
